@@ -148,7 +148,11 @@ pub fn record(seed: u64, nev: usize, out: &str) {
         let model = |th: &[f64], a: f64| -> f64 { match kind { "exponential" => th[0] * (th[1] * a).exp(), "logistic" => th[0] / (1.0 + (-(th[1] * a + th[2])).exp()),
             "logistic-growth" => { let ez = ((a - th[2]) * th[1]).exp(); th[0] * ez / (ez + 1.0) }, _ => th[0] * a } };
         let p = match kind { "exponential" => 2, "logistic" | "logistic-growth" => 3, _ => 1 };
-        let y: Vec<f64> = x.iter().map(|a| model(&truth, *a) + ns * noise(&mut rng)).collect();
+        // the response in other units (amplitude parameter, noise and start scaled alike): descent, finiteness and the covariance
+        // certificate are unit-free, so no absolute threshold may enter the gain ratio or the stopping tests
+        let ysc = [1.0, 1.0, 2f64.powi(-30), 2f64.powi(25)][rng.below(4) as usize];
+        let mut truth = truth; truth[0] *= ysc;
+        let y: Vec<f64> = x.iter().map(|a| model(&truth, *a) + ns * ysc * noise(&mut rng)).collect();
         // poor starts: perturbed truth, or a fixed far-off point (wrong sign of the rate, wrong scale) that forces rejected steps
         let start: Vec<f64> = if kind == "logistic-growth" {
             // tiny amplitude and flat slope: the first weakly damped steps overshoot
@@ -158,10 +162,12 @@ pub fn record(seed: u64, nev: usize, out: &str) {
             1 => match kind { "exponential" => vec![0.1, 3.0], "logistic" => vec![10.0, -2.0, 3.0], _ => vec![-7.0] },
             k => (0..p).map(|i| truth[i] + [1.5, -0.9, 2.0][i] * if k == 2 { 1.0 } else { 0.3 }).collect(),
         } };
-        let budget = if kind == "logistic-growth" { [1usize, 2, 5, 100][rng.below(4) as usize] } else { 100 };
+        let mut start = start; start[0] *= ysc;
+        let budget = if kind == "logistic-growth" || (ysc != 1.0 && kind != "linear-short-window") { [1usize, 2, 3, 5, 100][rng.below(5) as usize] } else { 100 };
         // the line fit is compared with the exact least-squares slope: run it with tight stopping tolerances
         // (the default 1e-6 legitimately stops about 2^-19 away)
-        let lm = if kind == "linear-short-window" { LM::new(1e-13, 1e-13, 1e-2) } else { LM::default() };
+        // (eps1 bounds the gradient norm |J^T r|, an absolute quantity in the units of the response: it is scaled with them)
+        let lm = if kind == "linear-short-window" { LM::new(1e-13 * ysc, 1e-13, 1e-2) } else if ysc != 1.0 { LM::new(1e-6 * ysc, 1e-6, 1e-2) } else { LM::default() };
         let g = guard(|| lm.optimize(|pr: &[Var], d: &[&[f64]]| {
             let a = d[0][0];
             match kind { "exponential" => (pr[1] * a).exp() * pr[0], "logistic" => pr[0] / ((-(pr[1] * a + pr[2])).exp() + 1.0),
@@ -175,7 +181,7 @@ pub fn record(seed: u64, nev: usize, out: &str) {
                 let ratio_log2 = if r1 <= r0 { -1 } else { ((r1 - r0) / r0.max(1e-300)).log2().ceil() as i64 };
                 // linear one-parameter model: the least-squares slope is sum(xy)/sum(xx)
                 let ls_dev_log2 = if kind == "linear-short-window" { let s = x.iter().zip(&y).map(|(a, b)| a * b).sum::<f64>() / x.iter().map(|a| a * a).sum::<f64>();
-                    let d = (th[0] - s).abs() / s.abs().max(1.0); if d == 0.0 { -1074 } else { d.log2().ceil() as i64 } } else { -1074 };
+                    let d = (th[0] - s).abs() / s.abs().max(ysc); if d == 0.0 { -1074 } else { d.log2().ceil() as i64 } } else { -1074 };
                 // covariance at the RETURNED point: (J^T J) C = s^2 I with J and s^2 = rss / (n - p) evaluated there; residual in
                 // units of eps (||J^T J|| ||C|| + s^2), the backward-error scale of an inverse (as for C01)
                 // (not judged for "logistic-growth": with e^z beyond 1e154 the reverse-mode derivative of e^z / (e^z + 1) is itself
@@ -206,10 +212,10 @@ pub fn record(seed: u64, nev: usize, out: &str) {
                         + 4.0 * f64::EPSILON * ymax * (n as f64 * r1).sqrt() / (n - p) as f64;
                     if den == 0.0 { if rmax == 0.0 { 0 } else { 1 << 30 } } else { (rmax / den).ceil().min(1e9) as i64 } }
                 } else { -1 };
-                t.emit(json!({"kind": kind, "n": n, "p": p, "out": "ok", "finite": th.iter().all(|v| v.is_finite()), "increase_log2": ratio_log2, "rss_not_increased": r1 <= r0 * (1.0 + 1e-12),
+                t.emit(json!({"kind": kind, "units": if ysc == 1.0 { "unit" } else if ysc < 1.0 { "nano" } else { "mega" }, "n": n, "p": p, "out": "ok", "finite": th.iter().all(|v| v.is_finite()), "increase_log2": ratio_log2, "rss_not_increased": r1 <= r0 * (1.0 + 1e-12),
                               "cov_shape_ok": cv.nrows == p && cv.ncols == p, "ls_dev_log2": ls_dev_log2, "cov_resid": cov_resid, "noise": ns, "budget": budget, "cov_finite": cv.data.iter().all(|t| t.is_finite()), "start": fjs(&start), "theta": fjs(&th)}));
             }
-            None => t.emit(json!({"kind": kind, "n": n, "p": p, "out": "panic", "finite": false, "increase_log2": 0, "rss_not_increased": false, "cov_shape_ok": false, "ls_dev_log2": 0, "cov_resid": -1, "noise": ns})),
+            None => t.emit(json!({"kind": kind, "units": "?", "n": n, "p": p, "out": "panic", "finite": false, "increase_log2": 0, "rss_not_increased": false, "cov_shape_ok": false, "ls_dev_log2": 0, "cov_resid": -1, "noise": ns})),
         }
     }
     let _ = Value::Null;
